@@ -161,6 +161,25 @@ class IVec(Vec):
         return IVec(self.kind, self.n, sel, self.name + '.copy')
 
 
+class IVec2(IVec):
+    """A constant 2-D integer index array of symbolic shape (m1, m2): the flattened entries are the Vec, `.shape`/`.ndim` say 2-D.
+    Elementwise comparisons and `a[mask] += c` act on the flattened entries (numpy semantics for same-shape operands)."""
+    shape2 = None
+
+    def getattr(self, ctx, name):
+        if name == 'ndim':
+            return 2
+        if name == 'shape':
+            return (SInt(self.shape2[0]), SInt(self.shape2[1]))
+        return super().getattr(ctx, name)
+
+    def copy(self):
+        sel = self._sel if self.base is None else self.sel
+        c = IVec2(self.kind, self.n, sel, self.name + '.copy')
+        c.shape2 = self.shape2
+        return c
+
+
 def source_dtypes():
     """the module-level tuple `_dtypes = bool, int, float, complex` as written in the CURRENT function.py"""
     import ast
@@ -219,6 +238,9 @@ class World:
         return v
 
     def constant(self, ctx, value):
+        if isinstance(value, IVec2):
+            self.constants.append(value)
+            return FArr(self, list(value.shape2), INT if value.kind == 'int' else BOOL, op=('const', value))
         if isinstance(value, IVec):
             self.constants.append(value)
             return FArr(self, [value.n], INT if value.kind == 'int' else BOOL, op=('const', value))
@@ -367,6 +389,8 @@ class World:
                             return 0
                         if isinstance(x, FArr):
                             return len(x.lens)
+                        if isinstance(x, IVec2):
+                            return 2
                         if isinstance(x, IVec):
                             return 1
                         raise Unsupported('numpy.ndim(%r)' % (x,))
@@ -978,11 +1002,11 @@ class TakeConst(ShapeContract):
     IndexError); the stored constant holds the indices normalised to [0, n).  axis=None ravels first."""
     fn = 'function:__implementations__.take'
 
-    def __init__(self, ndim, axis):
-        self.ndim, self.axis = ndim, axis
-        self.label = 'ndim=%d,axis=%s' % (ndim, axis)
-        self.bounded = 'rank (<= 3), axis and the rank of the index array (1) fixed; lengths, number of indices and index values symbolic'
-        self.native_recipe = ('take', {'ndim': ndim, 'axis': axis})
+    def __init__(self, ndim, axis, irank=1):
+        self.ndim, self.axis, self.irank = ndim, axis, irank
+        self.label = 'ndim=%d,axis=%s' % (ndim, axis) + (',index-rank=%d' % irank if irank != 1 else '')
+        self.bounded = 'rank (<= 3), axis and the rank of the index array (%d) fixed; lengths, number of indices and index values symbolic' % irank
+        self.native_recipe = ('take', {'ndim': ndim, 'axis': axis, 'irank': irank})
         self.expect_return = axis is None or (ndim > 0 and np_axis(ndim, axis) is not None)
 
     def setup(self, cx):
@@ -991,9 +1015,17 @@ class TakeConst(ShapeContract):
         m = cx.int('m')
         cx.assume(m >= 0)
         v = Vec.fresh(cx, 'indices', 'int', n=m, probes=2)
-        idx = IVec('int', v.n, v._sel, 'indices')
+        if self.irank == 2:
+            m1, m2 = cx.int('m1'), cx.int('m2')
+            cx.assume(z3.And(m1 >= 0, m2 >= 0))  # the flattened count m is left unrelated: only .shape enters the shape rule
+            idx = IVec2('int', v.n, v._sel, 'indices')
+            idx.shape2 = (m1, m2)
+            ishape = [m1, m2]
+        else:
+            idx = IVec('int', v.n, v._sel, 'indices')
+            ishape = [m]
         orig = idx._sel
-        return State(args=(FArr(w, lens, FLOAT), idx, self.axis), lens=lens, m=m, orig=orig, world=w, globals=g)
+        return State(args=(FArr(w, lens, FLOAT), idx, self.axis), lens=lens, m=m, ishape=ishape, orig=orig, world=w, globals=g)
 
     def axis_len(self, S):
         if self.axis is None:
@@ -1020,10 +1052,10 @@ class TakeConst(ShapeContract):
         if not self.expect_return:
             return [('rejects-what-numpy-rejects', z3.BoolVal(False))]
         if self.axis is None:
-            want = [S.m]
+            want = list(S.ishape)
         else:
             a = np_axis(self.ndim, self.axis)
-            want = S.lens[:a] + [S.m] + S.lens[a + 1:]
+            want = S.lens[:a] + list(S.ishape) + S.lens[a + 1:]  # NumPy: the index array's axes replace axis `axis`, in place
         out = [('numpy-accepts', self.in_range(S)), ('numpy-shape', eqshape(result_lens(result), want))]
         if len(S.world.constants) != 1:
             raise Unsupported('expected exactly one constant index array, got %d' % len(S.world.constants))
@@ -1047,6 +1079,8 @@ def indexing_contracts():
         cs.append(Get(ndim, axis))
     for ndim, axis in [(1, 0), (1, -1), (2, 0), (2, 1), (2, -1), (3, 1), (3, -3), (1, 1), (2, -3), (0, 0), (1, None), (2, None)]:
         cs.append(TakeConst(ndim, axis))
+    for ndim, axis in [(1, 0), (1, -1), (2, 0), (2, 1), (2, -1), (2, -2), (3, 1), (3, -1), (3, -2), (3, -3), (2, None)]:
+        cs.append(TakeConst(ndim, axis, irank=2))
     return cs
 
 
